@@ -65,6 +65,8 @@ type SessSpec struct {
 	PNow       float64               `json:"p_now"`   // probability to ack inside the listener
 	PDefer     float64               `json:"p_defer"` // probability to defer (rest: never)
 	PCommitIn  float64               `json:"p_commit_in,omitempty"` // probability to call Commit inside the listener after an immediate ack
+	// CommitUnacked: the in-listener Commit is also called on events whose acknowledgement is deferred or withheld
+	CommitUnacked bool `json:"commit_unacked,omitempty"`
 	Steps      []Step                `json:"steps"`
 	FailSaves  []int                 `json:"fail_saves,omitempty"` // 1-based indices of mem-backend saves that are rejected
 	SlowSaveMs int                   `json:"slow_save_ms,omitempty"`
@@ -85,6 +87,8 @@ type SessSpec struct {
 	Membership string                `json:"membership,omitempty"` // "" static 1/1 | dynamic (fed through PUT /membership/info)
 	FirstInfo  [2]int                `json:"first_info,omitempty"` // member,total sent while starting (dynamic)
 	RebalanceDelayMs int             `json:"rebalance_delay_ms,omitempty"`
+	// HookDelayMs: injected delays at the library's verif hook points (point name -> ms), e.g. "wait.signal"
+	HookDelayMs map[string]int `json:"hook_delay_ms,omitempty"`
 	RollbackMitigation bool          `json:"rollback_mitigation,omitempty"`
 	HealthCheck bool                 `json:"health_check,omitempty"`
 	HCTimeoutMs int                  `json:"hc_timeout_ms,omitempty"`
@@ -344,6 +348,8 @@ func RunSession(spec *SessSpec) *Trace {
 	}
 	tr.Env = env
 	defer env.Close()
+	setHookDelays(env.Log, spec.HookDelayMs)
+	defer setHookDelays(env.Log, nil)
 	env.Sim.Fragment = spec.Fragment
 	for name, id := range spec.Colls {
 		env.Sim.Collections["_default."+name] = id
@@ -571,16 +577,24 @@ func RunSession(spec *SessSpec) *Trace {
 			time.Sleep(time.Duration(spec.SlowConsUs) * time.Microsecond)
 		}
 		r := float64(hash64(uint64(spec.AckSeed), uint64(d.VB), d.Seq)%1000000) / 1e6
+		commitIn := spec.PCommitIn > 0 && float64(hash64(uint64(spec.AckSeed)+1, uint64(d.VB), d.Seq)%1000000)/1e6 < spec.PCommitIn
 		switch {
 		case r < spec.PNow:
 			s.ackOne(d)
-			if spec.PCommitIn > 0 && float64(hash64(uint64(spec.AckSeed)+1, uint64(d.VB), d.Seq)%1000000)/1e6 < spec.PCommitIn {
+			if commitIn {
 				d.Commit()
 			}
 		case r < spec.PNow+spec.PDefer:
 			s.pmu.Lock()
 			s.pending = append(s.pending, d)
 			s.pmu.Unlock()
+			if commitIn && spec.CommitUnacked {
+				d.Commit() // the listener saves ("persist what was acknowledged so far") while this event is still in the worker
+			}
+		default:
+			if commitIn && spec.CommitUnacked {
+				d.Commit()
+			}
 		}
 	}
 	var opts hx.FullOpts
